@@ -315,6 +315,14 @@ func (f *Font) encodeCharStrings() (cffIndex, float64, float64, error) {
 
 	cc := make(cffIndex, numGlyphs)
 	defaultWidth, nominalWidth := f.selectWidths()
+	// The Private DICT stores DefaultWidthX and NominalWidthX as integers
+	// (see makePrivateDict), so the charstrings must be encoded relative
+	// to the same integers.
+	defaultWidth = math.Trunc(defaultWidth)
+	nominalWidth = math.Trunc(nominalWidth)
+	if math.IsInf(nominalWidth, 0) || math.IsNaN(nominalWidth) {
+		nominalWidth = 0
+	}
 	for i, glyph := range f.Glyphs {
 		code, err := glyph.encodeCharString(defaultWidth, nominalWidth)
 		if err != nil {
